@@ -6,6 +6,7 @@ CONSTANTS
   BuiltinClashCrashes = TRUE
   LateBuiltinShadowed = TRUE
   AddRawKey = FALSE
+  HeaderBlanksKept = FALSE
   AddMerged = FALSE
 INVARIANT NoDuplicateSurvives
 INVARIANT Terminates
